@@ -577,3 +577,252 @@ def leap_day_windows(rng, res, problems):
         if out.shape != f.shape or not np.isfinite(out).all():
             bad = np.where(~np.isfinite(out))[0]
             problems.append((f"{name}: {bad.size} unassigned / non-finite steps with one-day windows (first {dF[bad[0]]})", case))
+
+
+# ------------------------------------------------------------------ C07: the smallest window samples (round 5)
+# Quantifier of C07 covered here: "every admissible window length / step length" (in particular ONE-day and ONE-year
+# windows), "all consecutive year ranges and the leap-year-only year sets that a one-day window on day 366 selects"
+# (in particular the sets of ONE or TWO leap years that a future period of a few years holds), "all series lengths"
+# (one to three steps, one step per year ...) -- together: the windows whose sample of the corrected series consists
+# of a single time step (or two or three).  A window is never too small to be assigned: whatever the size of its
+# sample, the steps it adjusts must be written, by it, once.
+def _composed_classes():
+    """probe subclasses of the two debiasers that run the loop over year windows INSIDE the loop over day-of-year
+    windows; the per-window value depends on all three window samples, so that a wrong sample is visible"""
+    if "composed" not in _CACHE:
+        from ibicus.debias import CDFt, QuantileDeltaMapping
+
+        @attrs.define(slots=False)
+        class ProbeCDFt2(CDFt):
+            def _apply_debiasing_steps(self, obs, cm_hist, cm_future):
+                return cm_future + obs.sum() + 2 * cm_hist.sum() + 7 * cm_future.sum()
+
+        @attrs.define(slots=False)
+        class ProbeQDM2(QuantileDeltaMapping):
+            def _get_obs_and_cm_hist_fits(self, obs, cm_hist):
+                return (obs.sum(),), (cm_hist.sum(),)
+
+            def _apply_debiasing_steps(self, cm_future, fit_obs, fit_cm_hist):
+                return cm_future + fit_obs[0] + 2 * fit_cm_hist[0] + 7 * cm_future.sum()
+
+        _CACHE["composed"] = {"CDFt": ProbeCDFt2, "QuantileDeltaMapping": ProbeQDM2}
+    return _CACHE["composed"]
+
+
+def composed_expected(deb, o, h, f, rawO, rawH, rawF):
+    """what apply_location of a (day-of-year windows x year windows) debiaser must return if every step is written once,
+    by the pair (day window, year window) that `use` / `use` assign it to, from samples that contain it.  Computed from the
+    REAL window classes, the probe function and the harness's own calendar.
+    Returns (values, number of writes per step, smallest year-window sample met, membership problems)"""
+    # (the window objects exist only when their mode is on)
+    w, wy = getattr(deb, "running_window", None), getattr(deb, "running_window_over_years_of_cm_future", None)
+    yF = np.array([d.year for d in rawF], dtype=int)
+    notes = []
+    with warnings.catch_warnings():
+        warnings.simplefilter("ignore")
+        if deb.running_window_mode:
+            dyO, dyH, dyF = indep_doy(rawO), indep_doy(rawH), indep_doy(rawF)
+            outer = [(idx, [w.get_indices_vals_in_window(d, c) for d in (dyO, dyH, dyF)]) for c, idx in w.use(dyF)]
+        else:
+            outer = [(np.arange(f.size), [np.arange(o.size), np.arange(h.size), np.arange(f.size)])]
+        out = np.full(f.size, np.nan)
+        count = np.zeros(f.size, dtype=int)
+        smallest = int(f.size)
+        for idx, (iO, iH, iF) in outer:
+            base = o[iO].sum() + 2 * h[iH].sum()
+            fw, yw = f[iF], yF[iF]
+            if not np.isin(idx, iF).all():
+                notes.append("a day-of-year window adjusts steps that are not in its own sample")
+            if deb.running_window_mode_over_years_of_cm_future:
+                res_w = np.full(fw.size, np.nan)
+                cnt_w = np.zeros(fw.size, dtype=int)
+                for ya, yin in wy.use(yw):
+                    mw, ma = np.isin(yw, yin), np.isin(yw, ya)
+                    if not np.isin(ya, yin).all():
+                        notes.append("a year window adjusts years that are not in its own sample")
+                    res_w[ma] = (fw[mw] + base + 7 * fw[mw].sum())[np.isin(yw[mw], ya)]
+                    cnt_w[ma] += 1
+                    smallest = min(smallest, int(mw.sum()))
+            else:
+                res_w, cnt_w = fw + base + 7 * fw.sum(), np.ones(fw.size, dtype=int)
+                smallest = min(smallest, int(fw.size))
+            sel = np.isin(iF, idx)
+            out[idx] = res_w[sel]
+            count[idx] += cnt_w[sel]
+    return out, count, smallest, notes
+
+
+def gen_small_sample_series(rng):
+    """corrected series whose windows hold very few steps: (kind, python dates)"""
+    kind = rng.choice(["daily-years", "daily-years", "year-ends", "sparse", "tiny", "subannual"])
+    y0 = rng.randint(1960, 2090) if rng.random() > 0.15 else rng.choice(CENTURY_YEARS) - rng.choice([0, 1, 3])
+    if kind == "daily-years":
+        # whole (or nearly whole) years of daily data over a FEW years: day 366 is present in 0, 1 or 2 of them
+        ny = rng.randint(1, 8)
+        start = datetime.date(y0, 1, 1) + datetime.timedelta(days=rng.choice([0, 0, rng.randint(1, 364)]))
+        dates = dates_from(start, 365 * ny + rng.choice([0, 1, 2, rng.randint(0, 60)]))
+        if rng.random() < 0.6:
+            # the same, restricted to the last months of the year (fewer windows to run; day 366 is still there)
+            m0 = rng.randint(9, 12)
+            dates = dates[np.array([d.month >= m0 for d in dates])] if any(d.month >= m0 for d in dates) else dates
+    elif kind == "year-ends":
+        ny, k = rng.randint(1, 12), rng.randint(1, 4)
+        dates = np.array([datetime.date(y, 12, 31) - datetime.timedelta(days=j) for y in range(y0, y0 + ny) for j in reversed(range(k))], dtype=object)
+        if rng.random() < 0.4:  # and the first days of the following year
+            dates = np.array(sorted(set(dates.tolist()) | {datetime.date(y + 1, 1, 1 + j) for y in range(y0, y0 + ny) for j in range(rng.randint(1, 2))}), dtype=object)
+    elif kind == "sparse":
+        # one to three steps per year
+        ny = rng.randint(1, 10)
+        dates = np.array(sorted({datetime.date(y, 1, 1) + datetime.timedelta(days=rng.randint(0, 364)) for y in range(y0, y0 + ny) for _ in range(rng.randint(1, 3))}), dtype=object)
+    elif kind == "tiny":
+        dates = dates_from(datetime.date(y0, 1, 1) + datetime.timedelta(days=rng.randint(0, 365)), rng.randint(1, 3))
+    else:
+        dates = dates_from(datetime.date(y0, 1, 1) + datetime.timedelta(days=rng.randint(0, 365)), rng.randint(20, 200))
+    return kind, dates
+
+
+def composed_window_cases(rng, n, res, problems):
+    """the REAL apply_location / apply_on_window of CDFt and QuantileDeltaMapping (probe value functions) with the loop over
+    year windows running inside the loop over day-of-year windows, on series whose windows hold very few steps:
+    every step assigned (finite under the NaN hook), once, with the value of the window pair it is assigned to"""
+    cls = _composed_classes()
+    for k in range(n):
+        name = ("CDFt", "QuantileDeltaMapping")[k % 2]
+        kind, rawF = gen_small_sample_series(rng)
+        rawO, rawH = small_span(rng, 500), small_span(rng, 500)
+        if rng.random() < 0.5:  # calibration series covering whole years
+            rawO = dates_from(datetime.date(rng.randint(1950, 2000), 1, 1), 365 * rng.randint(1, 3) + 1)
+        L = rng.choice([1, 1, 1, 2, 3, 5, rng.randint(1, 31)])
+        S = rng.choice([1, L, rng.randint(1, L)])
+        YL, YS = rng.choice([(1, 1), (1, 1), (2, 1), (3, 1), (3, 3), (17, 9), (5, 2), (4, 4), (rng.randint(1, 9), rng.randint(1, 9))])
+        if YS > YL:
+            YL, YS = YS, YL
+        day_mode = rng.random() < 0.8
+        year_mode = (not day_mode) or rng.random() < 0.85
+        if k < 4:
+            # scheduled, not left to chance: one-day windows on a daily series holding exactly ONE leap year (day 366 once), and
+            # one-day windows with one-year windows on two whole years -- every year window then holds a single step
+            first = rng.choice([2001, 2041, 1897, 2097, 1961])
+            kind, rawF = "daily-years", dates_from(datetime.date(first, 1, 1), 365 * (6 if k < 2 else 2) + (1 if k < 2 else 0))
+            if k != C.seed() % 4:  # one of the four on the whole years, the others on their last quarter (fewer windows to run)
+                rawF = rawF[np.array([d.month >= 10 for d in rawF])]
+            L, S, day_mode, year_mode = 1, 1, True, True
+            if k >= 2:
+                YL, YS = 1, 1
+            else:
+                YL, YS = rng.choice([(17, 9), (3, 1)])
+        kF, pF = storage_perm(rng, rawF.size) if rng.random() < 0.3 else ("none", np.arange(rawF.size))
+        rawF = rawF[pF]
+        nprs = np.random.RandomState(rng.randint(0, 2**31 - 1))
+        o = nprs.randint(-9, 10, rawO.size).astype(float)
+        h = nprs.randint(-9, 10, rawH.size).astype(float)
+        f = nprs.randint(-9, 10, rawF.size).astype(float)
+        enc = pick_kind(rng)
+        dO, dH, dF = present(rawO, enc), present(rawH, enc), present(rawF, enc)
+        kw = dict(running_window_mode=day_mode, running_window_length=L, running_window_step_length=S,
+                  running_window_mode_over_years_of_cm_future=year_mode,
+                  running_window_over_years_of_cm_future_length=YL, running_window_over_years_of_cm_future_step_length=YS)
+        case = {"what": "composed-windows/" + name, "series": kind, "startF": str(min(rawF)), "nF": int(rawF.size),
+                "years_F": [int(min(rawF).year), int(max(rawF).year)], "storage_order": kF,
+                "startO": str(rawO[0]), "nO": int(rawO.size), "startH": str(rawH[0]), "nH": int(rawH.size),
+                "time_encoding": enc, "case_index": k, "seed": C.seed(), **{a: (bool(b) if isinstance(b, bool) else int(b)) for a, b in kw.items()}}
+        check_calendar(rawF, problems, what="composed-windows/calendar", presented=dF)
+        with warnings.catch_warnings():
+            warnings.simplefilter("ignore")
+            try:
+                deb = cls[name].from_variable("tas", **kw)
+                out = np.asarray(deb.apply_location(o, h, f, dO, dH, dF), dtype=float)
+            except Exception as ex:  # noqa: BLE001
+                problems.append((f"{name}: {type(ex).__name__}: {str(ex)[:120]} (probe value function; finite well-formed input)", case))
+                continue
+        try:
+            want, count, smallest, notes = composed_expected(deb, o, h, f, rawO, rawH, rawF)
+        except Exception as ex:  # noqa: BLE001  (the window classes themselves failing on these year / day lists)
+            problems.append((f"{name}: the window classes raise {type(ex).__name__} on the window samples of this series: {str(ex)[:100]}", case))
+            continue
+        res.count(("composed", name, kind, L, S, YL if year_mode else 0, YS if year_mode else 0, day_mode, min(smallest, 3)), True,
+                  sample={**case, "smallest_year_window_sample": smallest} if k < 6 else None)
+        dates = [d for d in rawF]
+        if out.shape != f.shape:
+            problems.append((f"{name}: result of shape {out.shape} for a series of {f.size} steps", case))
+            continue
+        if not np.isfinite(out).all():
+            bad = np.where(~np.isfinite(out))[0]
+            problems.append((f"{name}: {bad.size} of {f.size} time steps are never assigned (NaN under the hook) although every step belongs to a window; "
+                             f"first {dates[bad[0]]} (smallest window sample of the series: {smallest} step(s))", case))
+            continue
+        for note in sorted(set(notes)):
+            problems.append((f"{name}: {note}", case))
+        if (count != 1).any():
+            bad = np.where(count != 1)[0]
+            problems.append((f"{name}: {bad.size} time steps are assigned {sorted(set(count[bad].tolist()))} times by the window classes (first {dates[bad[0]]})", case))
+            continue
+        if (out != want).any():
+            bad = np.where(out != want)[0]
+            problems.append((f"{name}: {bad.size} time steps hold a value that was not computed by the (day window, year window) pair they are "
+                             f"assigned to; first {dates[bad[0]]}: {out[bad[0]]} instead of {want[bad[0]]}", case))
+
+
+def debiasers_small_samples(rng, n, res, problems):
+    """the property's consequence (a finite value at every step) on the REAL debiasers at the small end of the admissible
+    window lengths: one-day (or few-day) windows over a future period of a few years, so that a window of the corrected
+    series holds as many steps as the period has years -- and a single step on day 366 when the period holds one leap year,
+    or in every year window of length one.
+    Guards (well-formed input): the two calibration series cover 20 whole years (every one-day window holds >= 5 values to
+    fit / rank, day 366 included); a debiaser that fits a parametric distribution to the corrected series' own window sample
+    (ScaledDistributionMapping, ECDFM) is only run when every such sample holds >= 5 steps."""
+    for k in range(n):
+        nprs = np.random.RandomState(rng.randint(0, 2**31 - 1))
+        y0 = rng.randint(1960, 2080)
+        if k % 2 == 0:
+            # exactly one leap year among 3..7 whole years; default year windows or short ones
+            y0 = y0 - y0 % 4 + 1
+            ny = rng.randint(4, 7)
+            L, S = rng.choice([(1, 1), (1, 1), (2, 1)])
+            ykw = rng.choice([{}, dict(running_window_over_years_of_cm_future_length=3, running_window_over_years_of_cm_future_step_length=1)])
+        else:
+            ny = rng.randint(1, 8)
+            L, S = rng.choice([(1, 1), (1, 1), (3, 1), (3, 3), (5, 5)])
+            ysl = rng.choice([1, 1, 3])
+            ykw = dict(running_window_over_years_of_cm_future_length=ysl * rng.choice([1, 1, 3]), running_window_over_years_of_cm_future_step_length=ysl)
+        dX = dates_from(datetime.date(y0, 1, 1), (datetime.date(y0 + ny, 1, 1) - datetime.date(y0, 1, 1)).days)
+        if k % 2 == 0:
+            # the last months of each of these years only (a quarter of the windows to run; the calendar span is arbitrary)
+            m0 = rng.choice([10, 11, 12])
+            dX = dX[np.array([d.month >= m0 for d in dX])]
+        dCal = dates_from(datetime.date(y0 - 24, 1, 1), (datetime.date(y0 - 4, 1, 1) - datetime.date(y0 - 24, 1, 1)).days)
+        debs = window_debiasers(L, S, ykw)
+        # the smallest sample of the corrected series a window holds (harness's own calendar; circular distance L//2 about a present day)
+        doyX = indep_doy(dX)
+        per_day = np.bincount(doyX, minlength=368)[1:367]
+        smallest = int(min(sum(per_day[(d - 1 + j) % 366] for j in range(-(L // 2), L // 2 + 1)) for d in set(doyX.tolist())))
+        names = ["LinearScaling", "DeltaChange", "QuantileMapping", "CDFt", "QuantileDeltaMapping"]
+        if smallest >= 5:
+            names += ["ScaledDistributionMapping", "ECDFM"]
+        if k == 0:
+            names.append("ISIMIP")
+        elif k % 2 == 1:
+            names = rng.sample(names, 3)
+        for name in names:
+            if name == "DeltaChange":
+                dO, dH, dF = dX, dCal, dCal
+            else:
+                dO, dH, dF = dCal, dCal, dX
+            o, h, f = tas_like(nprs, dO, 283, 3), tas_like(nprs, dH, 285, 4), tas_like(nprs, dF, 287, 4)
+            enc = pick_kind(rng)
+            case = {"what": "debiaser-small-samples/" + name, "L": L, "S": S, "year_windows": {a.split("future_")[1]: int(b) for a, b in ykw.items()},
+                    "corrected_series": f"{dX[0]} .. {dX[-1]} daily, {dX.size} steps from month {min(d.month for d in dX)} on", "calibration_series": f"{dCal[0]} .. {dCal[-1]} daily",
+                    "smallest_window_sample": smallest, "case_index": k, "seed": C.seed(), "time_encoding": enc}
+            dO, dH, dF = present(dO, enc), present(dH, enc), present(dF, enc)
+            with warnings.catch_warnings():
+                warnings.simplefilter("ignore")
+                try:
+                    out = np.asarray(debs[name]().apply_location(o, h, f, dO, dH, dF))
+                except Exception as ex:  # noqa: BLE001
+                    problems.append((f"{name}: {type(ex).__name__}: {str(ex)[:120]}", case))
+                    continue
+            res.count(("deb-small", name, L, S, ny, smallest), True, sample=case if k < 2 else None)
+            if out.shape != (dX.size,) or not np.isfinite(out).all():
+                bad = np.where(~np.isfinite(out))[0] if out.shape == (dX.size,) else np.array([0])
+                problems.append((f"{name}: {bad.size if out.shape == (dX.size,) else -1} of {dX.size} output steps non-finite / unassigned for finite input "
+                                 f"(first {dX[bad[0]]}; smallest window sample {smallest} step(s))", case))
